@@ -780,12 +780,12 @@ Qed.
 Definition proved : list rname := [RTuple 1; RTuple 2; RTuple 3; RTuple 4; RTuple 5; RTuple 6; RTuple 14; RTranspose; RPopConst].
 (** rules of the current table that are NOT proved here (decided by the differential search only):
     PseudoIsPrime, where rules, member-of-range rules, RandomRow, the sort rules,
-    ReplaceRand, the power rules (no reference semantics of power), the complex rules, SquareAbs, NegAbs,
+    ReplaceRand, the power rules (no reference semantics of power), AbsComplex, SquareAbs, NegAbs,
     and every hand-written Optimization except TransposeOpt and PopConst *)
 Definition listed_unproved : list rname :=
   [RTuple 0; RTuple 7; RTuple 8; RTuple 9; RTuple 10; RTuple 11; RTuple 12; RTuple 13;
    RTuple 15; RTuple 16; RTuple 17; RTuple 18; RTuple 19; RTuple 20; RTuple 21; RTuple 22; RTuple 23; RTuple 24;
-   RTuple 25; RTuple 26; RTuple 27; RTuple 28; RTuple 29; RTuple 30;
+   RTuple 25; RTuple 26; RTuple 27; RTuple 28;
    RByToDup; RRowsFlip; RInlineCustomInverse; RReduceTable; RReduceDepth; RReduceContent;
    RReduceConjoinInventory; RPath; RSplitBy; RAllSame; RSortedUp; RValidateType].
 
@@ -794,8 +794,8 @@ Definition mem_name (r : rname) (l : list rname) : bool := existsb (rname_eqb r)
 (** every rule of the transcribed table is either proved or listed as unproved, never both *)
 Lemma all_rules_accounted :
   forallb (fun o => xorb (mem_name (opt_name o) proved) (mem_name (opt_name o) listed_unproved)) unsorted_opts = true
-  /\ length unsorted_opts = 45%nat
-  /\ length optimizations = 45%nat.
+  /\ length unsorted_opts = 43%nat
+  /\ length optimizations = 43%nat.
 Proof. vm_compute. auto. Qed.
 
 (** the proved rules are sound, as they stand in the table *)
